@@ -655,6 +655,8 @@ def position_problem(line: int, col: int | None, el: int | None, ec: int | None,
 
 
 def msg_shape(msg: str) -> str:
+    if msg.startswith("Invalid syntax"):
+        return "Invalid syntax"
     s = re.sub(r'"[^"]*"', '"_"', msg)
     s = re.sub(r"'[^']*'", "'_'", s)
     s = re.sub(r"\d+", "N", s)
@@ -848,6 +850,11 @@ def compare_check(files: dict[str, str], ver: str, od: dict[str, Any], on: dict[
                 y = sb[twin]
                 which = ",".join(nm_ for nm_, p, q in zip(("line", "column", "end_line", "end_column"), x[:4], y[:4]) if p != q)
                 se = "start" if ("line" in which.split(",") or "column" in which.split(",")) else "end"
+                if se == "end" and (x[2], x[3]) == (x[0], x[1]) and (y[2], y[3]) != (y[0], y[1]):
+                    # the node had no end position under the default parser (Errors.report clamped it to one column)
+                    nk = "no-end-in-default"
+                elif se == "end" and (y[2], y[3]) == (y[0], y[1]) and (x[2], x[3]) != (x[0], x[1]):
+                    nk = "no-end-in-native"
                 F.add(f"diag-position:{se}:{nk}",
                       f"same diagnostic, different location: default {x[:4]} native {y[:4]}: {x[5][:90]}",
                       dict(base, default=[list(t) for t in a], native=[list(t) for t in b]))
@@ -1502,6 +1509,8 @@ FRAG_HEADER = """From Coq Require Import ZArith List String Bool.
 From C14 Require Import Model.
 Import ListNotations.
 Open Scope Z_scope.
+Set Printing Depth 1000000.
+Set Printing Width 200.
 """
 
 FRAG_FIXED = [
